@@ -292,7 +292,7 @@ func InjectDefect(src *choice.Src, c *Cfg) (string, YMut) {
 // int, a float or a bool (timestamps, binary, sets, merge keys ...) or into values at the edge of those.
 var oddScalars = []string{"2024-01-01", "2001-12-14t21:59:43.10-05:00", "2001-12-14 21:59:43.10 -5", "!!timestamp 2024-02-30", "!!timestamp \"2024-01-01\"",
 	"!!binary aGVsbG8=", "0o14", "0b1010_1010", "1_000_000", "0x_0A", "190:20:30", "yes", "Off", ".NaN", "-.inf", "!!float 1e400", "18446744073709551616",
-	"-9223372036854775809", "!!set {a, b}", "!!omap [a: 1]", "!!str", "!!null x", "? complex", "{<<: {a: 1}}", "[<<, 1]", "!!map []", "!!seq {}", "1e-400", "0.1e+3_0", "+12", "\"\\x00\"", "'@'", "'%'", "'!tagged'", "'!value'", "\"\\uD800\""}
+	"-9223372036854775809", "!!set {a, b}", "!!omap [a: 1]", "!!str \"\"", "!!null x", "{<<: {a: 1}}", "[<<, 1]", "!!map []", "!!seq {}", "1e-400", "0.1e+3_0", "+12", "\"\\x00\"", "'@'", "'%'", "'!tagged'", "'!value'", "\"\\uD800\""}
 
 // oddScalar puts one of them where an argument, a field value, a call argument, a decorator argument, a
 // parameter or a tag priority is expected. Most are rejected, some are accepted: either way with a verdict.
